@@ -8,9 +8,16 @@ NoDeny == [p \in Peers |-> {}]
 MCCfgs == UNION {{[limit |-> l, replace |-> TRUE,  sdh |-> TRUE,  deny |-> MCDeny, ignored |-> MCIgnored, big |-> MCBig],
                   [limit |-> l, replace |-> FALSE, sdh |-> TRUE,  deny |-> NoDeny, ignored |-> MCIgnored, big |-> MCBig],
                   [limit |-> l, replace |-> TRUE,  sdh |-> FALSE, deny |-> NoDeny, ignored |-> MCIgnored, big |-> MCBig]} : l \in MCLimits}
-RawWant   == [c : Cids, prio : Prios, wt : {"B", "H"}, cancel : {FALSE}, sdh : BOOLEAN]
-RawCancel == [c : Cids, prio : {0}, wt : {"B"}, cancel : {TRUE}, sdh : {FALSE}]
-RawEntry  == RawWant \cup RawCancel
-MCMsgs == {MergeInto(<<>>, raw) : raw \in UNION {[1..n -> RawEntry] : n \in 1..MCMsgLen}}
+\* wantlists a peer may send: every single want / cancel, and every pair of want-blocks for two
+\* different CIDs in both orders with all priority combinations (in-message overflow and ordering);
+\* with MCMsgLen = 2 additionally every sequence of two arbitrary entries (duplicate CIDs, mixes)
+Kinds == {<<"B", TRUE>>, <<"H", TRUE>>, <<"B", FALSE>>}
+Want(c, pr, k) == [c |-> c, prio |-> pr, wt |-> k[1], cancel |-> FALSE, sdh |-> k[2]]
+CancelOf(c) == [c |-> c, prio |-> 0, wt |-> "B", cancel |-> TRUE, sdh |-> FALSE]
+Singles == {<<Want(c, pr, k)>> : c \in Cids, pr \in Prios, k \in Kinds} \cup {<<CancelOf(c)>> : c \in Cids}
+PairsOK == {m \in [1..2 -> {Want(c, pr, <<"B", TRUE>>) : c \in Cids, pr \in Prios}] : m[1].c # m[2].c}
+RawEntry == {Want(c, pr, k) : c \in Cids, pr \in Prios, k \in Kinds \cup {<<"H", FALSE>>}} \cup {CancelOf(c) : c \in Cids}
+AllPairs == {MergeInto(<<>>, raw) : raw \in [1..2 -> RawEntry]}
+MCMsgs == Singles \cup PairsOK \cup (IF MCMsgLen >= 2 THEN AllPairs ELSE {})
 View0 == <<cfg, bs, ledger, ghost, q, out, ov>>
 =============================================================================
